@@ -779,6 +779,65 @@ def run(ctx):
         ctx.unknown('R16ab', w, None, 'only %d delimiter-list constructions found in the legacy methods' % n_gd,
                     construct='legacy delimiter lists')
 
+    # ---- R16ad: bracket tables of the legacy methods pair each closing character with its own opening character
+    ctx.rule('R16ad', 'every constant table in the legacy walker code that relates bracket characters (a dict literal or '
+                      'dict(zip(..)) from closing to opening characters, a two-element [open, close] list or tuple) pairs '
+                      '{ with }, [ with ], ( with ) and < with >: get_latex_nodes(stop_upon_closing_brace=\')\') must register '
+                      'the pair (\'(\', \')\') -- the state the new parser API would be given -- not a pair of two different '
+                      'bracket kinds (evaluated from the source; exercised on a built-in example on every run)', 1)
+    _PAIR16 = {'{': '}', '[': ']', '(': ')', '<': '>'}
+    _BR16 = set(_PAIR16) | set(_PAIR16.values())
+
+    def _seq16(e_):
+        if isinstance(e_, ast.Constant) and isinstance(e_.value, str):
+            return list(e_.value)
+        if isinstance(e_, (ast.List, ast.Tuple)) and all(isinstance(x_, ast.Constant) and isinstance(x_.value, str)
+                                                         for x_ in e_.elts):
+            return [x_.value for x_ in e_.elts]
+        return None
+
+    def _bracket_tables(tree_):
+        """yield (node, [(a, b), ...]) for constant bracket relations"""
+        for n_ in ast.walk(tree_):
+            if isinstance(n_, ast.Dict) and n_.keys and all(
+                    isinstance(k_, ast.Constant) and isinstance(v_, ast.Constant) and k_.value in _BR16 and v_.value in _BR16
+                    for k_, v_ in zip(n_.keys, n_.values)):
+                yield n_, [(k_.value, v_.value) for k_, v_ in zip(n_.keys, n_.values)]
+            elif isinstance(n_, ast.Call) and call_name(n_) == 'dict' and len(n_.args) == 1 and \
+                    isinstance(n_.args[0], ast.Call) and call_name(n_.args[0]) == 'zip' and len(n_.args[0].args) == 2:
+                a_, b_ = _seq16(n_.args[0].args[0]), _seq16(n_.args[0].args[1])
+                if a_ is not None and b_ is not None and a_ and set(a_) | set(b_) <= _BR16:
+                    yield n_, list(zip(a_, b_))
+            elif isinstance(n_, (ast.List, ast.Tuple)) and len(n_.elts) == 2 and isinstance(getattr(n_, 'ctx', None), ast.Load):
+                ab_ = _seq16(n_)
+                if ab_ is not None and ab_[0] in _PAIR16 and ab_[1] in _PAIR16.values():
+                    yield n_, [tuple(ab_)]
+
+    def _bad16(pairs_):
+        return [(a_, b_) for a_, b_ in pairs_ if not (_PAIR16.get(a_) == b_ or _PAIR16.get(b_) == a_)]
+    ex16d_ = ast.parse("def f(c):\n    return dict(zip('}])>', '{[<(')).get(c), {'}': '{', ')': '('}, ['(', ')'], ('<', ']')\n")
+    if [bool(_bad16(p_)) for _n, p_ in _bracket_tables(ex16d_)] != [True, False, False, True] and \
+            sorted(bool(_bad16(p_)) for _n, p_ in _bracket_tables(ex16d_)) != [False, False, True, True]:
+        raise AnalysisError('R16ad: the bracket-table rule no longer fires on its built-in example')
+    n16d = 0
+    for mn_, mod_ in sorted(repo.modules.items()):
+        if not mn_.startswith('pylatexenc.latexwalker'):
+            continue
+        for node_, pairs_ in _bracket_tables(mod_.tree):
+            n16d += 1
+            bad_ = _bad16(pairs_)
+            fn_ = enclosing_func(node_)
+            q_ = getattr(fn_, '_qualname', '<module>')
+            ctx.decide('R16ad', not bad_, mod_, node_, '%s: %s pairs matching brackets' % (q_, short(node_, 40)),
+                       '%s: the bracket table %s relates %s: a closing character is paired with the opening character of another '
+                       'bracket kind, so the legacy call registers a delimiter pair such as (\'<\', \')\') -- the opening '
+                       'character the caller means stays a plain character and nested groups end the list early, unlike the '
+                       'new parser API with the matching pair'
+                       % (q_, short(node_, 50), ', '.join('%r with %r' % ab_ for ab_ in bad_)),
+                       construct='%s: bracket table %s' % (q_, ''.join(a_ for a_, _b in pairs_)))
+    if not n16d:
+        ctx.unknown('R16ad', w, None, 'no constant bracket table found in the legacy walker code', construct='bracket tables')
+
     # ---- R16ac: a test on the current position is made where the position is current
     ctx.rule('R16ac', 'the legacy argument parsers compute no test of the reading position (is there white space at p, are we at '
                       'the end) once in front of the argument loop and use it inside the loop, where p has moved: '
